@@ -145,6 +145,13 @@ def check_node_line(files, line, mnemonics):
             return f"node {kind}: range designates {got!r}, node text is {unhx(m.group(1))!r}"
     elif squash(want) != squash(g2):
         return f"node {kind}: range designates {got!r}, node text is {want!r}"
+    # the node starts at its mnemonic / directive token
+    mt = re.search(r" (?:it|dt)=(\S+)", line)
+    if mt and kind not in ("Label",):
+        tl = parse_loc(mt.group(1))
+        if tl and tl["file"] == loc["file"] and tl["sr"] != loc["sr"]:
+            return (f"node {kind}: range starts at raw {loc['sr']} but its mnemonic token starts at raw {tl['sr']} "
+                    f"(range designates {got!r})")
     # operand tokens
     for key, val in NODE_FIELDS.findall(line):
         if "/" in val:
